@@ -3,6 +3,10 @@ with the YAML loader replaced by a stub that returns a per-file dictionary.
 
 shard: edges  = 6 bits  root->a, root->b, a->b, a->c, b->c, c->a   (diamonds, chains, a cycle a->..->c->a)
        twice  = 1: root lists its first import twice
+       rev    = 1: every file lists its imports in the opposite order (so a file can meet an already-read file FIRST and a new one after it)
+       layout = flat | tree (sibling directories of different depth, imports spelled with "..") | tree_core (as tree, file c is named core_defs.yaml)
+       coredefs = 1: the parser imports the package's core definitions first (import_coredefs on, the package file read as an empty mapping):
+                  the module / host id range rules are then in force for every file not named core_defs.yaml, and the ids range over all ints
        place  = [file of item 1, file of item 2]   (0 root, 1 a, 2 b, 3 c)
        kinds  = [kind of item 1, kind of item 2]   kinds: msg | signal | module | host | const | struct
 symbolic: the two ids (any int in the valid range of the kind), the two names as indices into {A, B, C}
@@ -25,20 +29,40 @@ atexit.register(lambda: shutil.rmtree(DIR, ignore_errors=True))
 for f in FILES:
     with open(os.path.join(DIR, f + ".yaml"), "w") as fh:
         fh.write(f + "\n")          # the file's text is its own name: the loader stub maps it to that file's dictionary
-# a second layout: the same four files spread over sibling directories, imported through paths containing ".."
-TREE = {"root": "root.yaml", "a": "rig_a/a.yaml", "b": "rig_b/b.yaml", "c": "common/c.yaml"}
-TDIR = os.path.join(DIR, "tree")
-for f, rel in TREE.items():
-    os.makedirs(os.path.dirname(os.path.join(TDIR, rel)), exist_ok=True)
-    with open(os.path.join(TDIR, rel), "w") as fh:
-        fh.write(f + "\n")
+# further layouts: the same four files spread over directories of different depth, imported through paths containing ".."
+# (a relative import only resolves if the working directory is the importing file's directory at that moment)
+TREES = {"tree": {"root": "root.yaml", "a": "rig_a/a.yaml", "b": "rig_b/b.yaml", "c": "common/deep/c.yaml"},
+         "tree_core": {"root": "root.yaml", "a": "rig_a/a.yaml", "b": "rig_b/b.yaml", "c": "common/deep/core_defs.yaml"}}
+TDIRS = {k: os.path.join(DIR, k) for k in TREES}
+for _lay, _tree in TREES.items():
+    for f, rel in _tree.items():
+        os.makedirs(os.path.dirname(os.path.join(TDIRS[_lay], rel)), exist_ok=True)
+        with open(os.path.join(TDIRS[_lay], rel), "w") as fh:
+            fh.write(f + "\n")
+
+
+# coredefs = 1: Parser.parse() reads <directory of parser.py>/core_defs/core_defs.yaml first.  The real file is ~1000 lines of text
+# that check_key_value_separation would walk under the tracer on every path; a one-line stand-in file (read as an empty mapping)
+# takes its place by pointing the parser module's __file__ at a scratch package directory.  parse() is the only user of __file__.
+PKG = os.path.join(DIR, "pkg")
+os.makedirs(os.path.join(PKG, "core_defs"), exist_ok=True)
+with open(os.path.join(PKG, "core_defs", "core_defs.yaml"), "w") as fh:
+    fh.write("package_core_defs\n")
+P.__file__ = os.path.join(PKG, "parser.py")
+
+
+def file_path(f):
+    lay = sh("layout", "flat")
+    if lay == "flat":
+        return os.path.join(DIR, f + ".yaml")
+    return os.path.join(TDIRS[lay], TREES[lay][f])
 
 
 def import_text(src, dst):
     """how file `src` spells its import of file `dst` in the current layout"""
     if sh("layout", "flat") == "flat":
         return dst + ".yaml"
-    return os.path.relpath(os.path.join(TDIR, TREE[dst]), os.path.dirname(os.path.join(TDIR, TREE[src])))
+    return os.path.relpath(file_path(dst), os.path.dirname(file_path(src)))
 SHARED = ("const", "struct", "msg", "signal")
 MSGID = ("msg", "signal")
 
@@ -52,12 +76,15 @@ class FakeYAML:
 
     def load(self, text):
         name = text.strip()
+        if name not in FakeYAML.data:
+            return {}           # the package's own core_defs.yaml (coredefs = 1): read as an empty mapping
         FakeYAML.loads[name] = FakeYAML.loads.get(name, 0) + 1
         return FakeYAML.data[name]
 
 
 P.YAML = FakeYAML
-STUBS = ["pyrtma.parser.YAML -> stub returning the per-file dictionary of the scenario (YAML surface syntax outside the claim); the files are real (empty-ish) files so resolve()/chdir()/is_dir() are the real ones",
+STUBS = ["pyrtma.parser.__file__ -> scratch directory whose core_defs/core_defs.yaml is a one-line stand-in read as an empty mapping (coredefs shards)",
+         "pyrtma.parser.YAML -> stub returning the per-file dictionary of the scenario (YAML surface syntax outside the claim); the files are real (empty-ish) files so resolve()/chdir()/is_dir() are the real ones",
          "Parser.logger -> NullLogger"]
 
 
@@ -84,6 +111,10 @@ def scenario(n1, v1, n2, v2):
     for (i, j), b in zip(EDGES, bits):
         if b:
             data[FILES[i]].setdefault("imports", []).append(import_text(FILES[i], FILES[j]))
+    if sh("rev", 0):
+        for f in FILES:
+            if data[f].get("imports"):
+                data[f]["imports"].reverse()
     if sh("twice", 0) and data["root"].get("imports"):
         data["root"]["imports"].append(data["root"]["imports"][0])
     names = [POOL[n1], POOL[n2]]
@@ -99,13 +130,13 @@ def scenario(n1, v1, n2, v2):
     p = object.__new__(P.Parser)
     # the attributes Parser.__init__ sets, without its logging handlers
     p.included_files, p.current_file, p.root_path, p.debug = [], pathlib.Path(), pathlib.Path(), False
-    p.validate_alignment, p.auto_pad, p.import_coredefs = True, True, False
+    p.validate_alignment, p.auto_pad, p.import_coredefs = True, True, bool(sh("coredefs", 0))
     p.logger = NullLogger()
     p.clear()
     exc = None
     cwd = os.getcwd()
     try:
-        p.parse((pathlib.Path(DIR) / "root.yaml") if sh("layout", "flat") == "flat" else (pathlib.Path(TDIR) / "root.yaml"))
+        p.parse(pathlib.Path(file_path("root")))
     except P.ParserError as e:
         exc = e
     except Exception as e:
@@ -125,6 +156,19 @@ def scenario(n1, v1, n2, v2):
                 changed = True
     both = reach[place[0]] and reach[place[1]]
     applicable = []
+    if sh("coredefs", 0):
+        # range rules: message ids everywhere; module / host ids in every file that is not named core_defs.yaml
+        for k in range(2):
+            if not reach[place[k]]:
+                continue
+            exempt = os.path.basename(file_path(FILES[place[k]])) == "core_defs.yaml"
+            v = vals[k]
+            if kinds[k] in MSGID and (v < 0 or v > P.MAX_MESSAGE_TYPES):
+                applicable.append(P.RTMASyntaxError)
+            if kinds[k] == "module" and (v < 10 or 99 < v < 200) and v != 0 and not exempt:
+                applicable.append(P.RTMASyntaxError)
+            if kinds[k] == "host" and (v < 1 or v > 32767) and not exempt:
+                applicable.append(P.RTMASyntaxError)
     if both:
         k1, k2 = kinds
         if k1 in SHARED and k2 in SHARED and names[0] == names[1]:
@@ -173,6 +217,10 @@ def _rng(kind, v):
 
 def _pre(n1, v1, n2, v2):
     kinds = sh("kinds", ["msg", "msg"])
+    if sh("coredefs", 0):
+        def anyint(kind, v):
+            return (-2**31 <= v < 2**31) if kind in MSGID + ("module", "host") else v == 0
+        return 0 <= n1 < 3 and 0 <= n2 < 3 and anyint(kinds[0], v1) and anyint(kinds[1], v2)
     return 0 <= n1 < 3 and 0 <= n2 < 3 and _rng(kinds[0], v1) and _rng(kinds[1], v2)
 
 
